@@ -13,8 +13,8 @@ def instances(tier, rng):
     dag = vlib.universe("dag", 4, k=3, w=3, cap=12)
     cyc = vlib.universe("cyc", 3, maxe=9, k=2, w=2, l=1, cap=6)
     cyc4 = vlib.universe("cyc", 4, maxe=6, k=2, w=2, l=1, cap=4)
-    items = [("kLeastAbsErrors", u) for u in C.spread(dag, 60 if quick else 495)] + \
-            [("kLeastAbsErrorsCycles", u) for u in C.spread(cyc, 12 if quick else 72) + C.spread(cyc4, 40 if quick else 500)]
+    items = [("kLeastAbsErrors", u) for u in C.spread(dag, 60 if quick else 150)] + \
+            [("kLeastAbsErrorsCycles", u) for u in C.spread(cyc, 12 if quick else 72) + C.spread(cyc4, 40 if quick else 150)]
     mdag, mcyc = C.motifs()
     items += [("kLeastAbsErrors", u) for u in mdag] + [("kLeastAbsErrorsCycles", u) for u in C.spread(mcyc, 8 if quick else 30)]
     insts = []
@@ -44,7 +44,7 @@ def instances(tier, rng):
                 extra.append({"sws": sorted(set(u["pweights"])) + [1]})
                 es = C.route_edges(rng.choice(u["proutes"]))
                 extra.append({"cons": [es[:2]]})
-                for cfg in feats + rng.sample(extra, 2 if quick else len(extra)):
+                for cfg in feats + rng.sample(extra, 2 if quick else 5):
                     g += 1
                     for wt, num, den in (("int", 1, 1), ("float", 1, 1), ("float", 1, 2)) if (not quick or rng.random() < 0.4) else (("int", 1, 1),):
                         r = C.base(u, cls, cfg.get("mode", "edge"))
